@@ -38,6 +38,7 @@ ASSUMPTIONS = [
 ]
 
 NAME = "k"
+_LEARNED = {}
 _TMPNAME = re.compile(r"[0-9a-f]{32}")
 
 
@@ -115,6 +116,12 @@ class World:
         """batch contents and result paths, read through the API on a copy"""
         from xyzpy.gen.cropping import grow
 
+        # (what each batch holds depends on the configuration only: learned
+        # once per worker process)
+        ck = (self.N, self.cfg["mode"], self.cfg["req"])
+        if ck in _LEARNED:
+            self.batches, self.resfile = (dict(x) for x in _LEARNED[ck])
+            return
         snap = fsseam.snapshot(self.d)
         self.batches = {}
         for i in range(1, self.B + 1):
@@ -128,6 +135,7 @@ class World:
                                         % (i, new))
             self.resfile[i] = new[0]
         fsseam.restore(self.d, snap)
+        _LEARNED[ck] = (dict(self.batches), dict(self.resfile))
 
     def expected_result(self, i):
         return tuple(xfn.value("num", e, self.ver) for e in self.batches[i])
